@@ -16,6 +16,25 @@ CLAIMED = {
         "markers); FIFO consumption of the download queue; harness canonicalisation.",
         "DESIGN.md section 5 C19",
     ),
+    "C06": (
+        "Lean 4 theorems over Rat (floor/ceil rank arithmetic, monotone linear quantile, straddle) + bridge lemmas to definitions regenerated from source + differential correspondence at stage level",
+        "ranks_valid / quantile_levels_valid / ranks_mono / npQuantile_mono / unit_ordered / unit_nested / agg_straddle / agg_nested / "
+        "margin_bounded are proved for every B >= 2, every level in (0,1), every list of draws and every group. _get_quantiles and the "
+        "+-0.001 lines are re-translated from /repo/src on every run and tied to the model by bridge lemmas (rfl); the aggregation and "
+        "interval construction are tied by running the real methods and the Lean model on generated frames with assigned draws.",
+        "Trusted: Lean kernel + standard axioms; compute_bootstrap_errors is an oracle (only its clip invariant is assumed and "
+        "range-checked); float vs exact handled by 1e-9 tolerance and a counted boundary rule.",
+        "DESIGN.md section 5 C06",
+    ),
+    "C07": (
+        "Lean 4 theorems (case analysis on the override functions, list membership for the validation) + bridge lemmas to thresholds / "
+        "_is_top_level_aggregate regenerated from source + differential correspondence at stage level",
+        "called_lhs_pred/lower, called_rhs_pred/upper, stopped_uncalled_contains_zero, uncalled_unstopped_unchanged, format_error_iff, "
+        "format_positions hold for arbitrary rational predictions, draws, levels and lists. The thresholds and the top-level test are "
+        "re-translated from source each run; race-call arithmetic and _format_called_contests are diffed against the model.",
+        "Trusted: as C06; contest identity is string equality as in pandas.get_dummies.",
+        "DESIGN.md section 5 C07",
+    ),
 }
 
 PENDING_REASON = "check not built yet in this session (model and correspondence in progress); not claimed until it is"
@@ -46,7 +65,7 @@ def main():
             na.append({"property_id": pid, "reason": NA.get(pid, PENDING_REASON)})
     man = {
         "version": 1,
-        "setup_cmd": "cd lean && lake build",
+        "setup_cmd": "/venv/bin/python -m harness.extract && cd lean && lake build",
         "hooks": {
             "guard": "ELEX_LIVE_MODEL_VERIF",
             "enable": "no source hooks are needed: the harness wraps library entry points in-process; checks export ELEX_LIVE_MODEL_VERIF=1 for symmetry",
